@@ -345,7 +345,6 @@ Proof.
     split; [eapply filled_cons; eauto|]. cbn [length]. repeat split; try lia; try congruence. intros H. apply Hfin. lia.
 Qed.
 
-Definition depth_allowed (md : option nat) (j : nat) : Prop := match md with Some m => (j < m)%nat | None => True end.
 
 Lemma depth_loop_spec Q ml mkd md : forall fuel depth node s,
   (forall j, (depth <= j < depth + fuel)%nat -> depth_allowed md j -> mk_spec Q (mkd j)) ->
